@@ -12,7 +12,8 @@ From DD Require Import Base.PyStr Base.Value Path.PathModel Diff.Tree Diff.DiffM
   Diff.DiffFaithful Delta.DeltaModel Delta.DeltaGuard Delta.DeltaRun Delta.DeltaGood Delta.DeltaChain Delta.DeltaVerify Delta.DeltaVerifyDiff Delta.DeltaVerifyIndep Delta.DeltaVerifyEx
   Delta.DeltaReverse Delta.DeltaReverseDiff Delta.DeltaReverseInplace Delta.DeltaReverseDiffInplace Delta.DeltaReverseTuple Delta.DeltaReverseSeq Delta.DeltaReverseC01
   Delta.DeltaReverseKinds Delta.DeltaReverseSym Delta.DeltaReverseZip
-  Delta.DeltaReverseSymD Delta.DeltaReverseDefault Delta.DeltaVerifyPerm.
+  Delta.DeltaReverseSymD Delta.DeltaReverseDefault Delta.DeltaVerifyPerm
+  Diff.DiffPaths Delta.DeltaReverseClash Delta.DeltaReverseClashInv Delta.DeltaVerifyHyp.
 
 (* ================================================================== *)
 (* 1. a non-bidirectional delta refuses subtraction                    *)
@@ -660,3 +661,60 @@ Theorem C08_values_changed_perm_refuted :
   root (do_values_changed true [pr_c2; pr_c1] (mkSt pr_root [] 0)).
 Proof. exact perm_refuted. Qed.
 Print Assumptions C08_values_changed_perm_refuted.
+
+(* ================================================================== *)
+(* 10. default mode including the clash case                           *)
+(* ================================================================== *)
+(* when a list index is both removed and added, mutual_add_removes merges the two
+   levels into a value change at the position of the removal: after mutual, the
+   reverse tree is kind by kind the mirrored forward tree, except that its value
+   changes come in another order *)
+Theorem C08_mutual_mirror :
+  forall esf esr,
+    keq esr (map mirror_entry esf) -> iterk_same_paths esf ->
+    NoDup (map ep1 (filter (is_kind KIterAdd) esf)) -> NoDup (map ep1 (filter (is_kind KIterRem) esf)) ->
+    (forall k, k <> KValue -> ksub k (mutual esr) = ksub k (map mirror_entry (mutual esf))) /\
+    Permutation.Permutation (ksub KValue (mutual esr)) (ksub KValue (map mirror_entry (mutual esf))).
+Proof. exact mutual_mirror. Qed.
+Print Assumptions C08_mutual_mirror.
+
+(* t2 - delta = t1 up to dict / set order: ALL categories, ANY mode, with or without
+   clashes.  Guards: C01's guards for (t2,t1) and its oracle conditions; korder;
+   keys_nonneg t1; opcode t1 and t2 ranges sorted and disjoint in default mode
+   (ops_sorted2, true of difflib); no tuple is the parent, in t2, of a location the
+   subtraction writes a value change to (the order-insensitivity of the
+   values_changed pass needs a coercion-free pass: C08_values_changed_perm_refuted) *)
+Theorem C08_sub_inverts_default :
+  forall hatom udiff ops c conv always,
+    thr_num c <= thr_den c ->
+    (forall a b, hatom a = hatom b -> a = b) ->
+    (forall ty0 v v', conv ty0 v = Some v' -> type_of v' = ty0) ->
+  forall ro ao, ro_ok ro -> ao_ok ao ->
+    (forall p xs ys, forallb is_atom xs = true -> forallb is_atom ys = true -> valid_ops xs ys (ops p xs ys)) ->
+    zip c = true \/ ops_sorted2 ops ->
+  forall t1 t2,
+    guards c conv true always t2 t1 -> korder t1 t2 -> keys_nonneg t1 = true ->
+    let r := run_diff hatom udiff ops DeltaReverseSym.nos DeltaReverseSym.nos c t1 t2 in
+    let d := to_delta conv true always ops t1 t2 (fst r) (snd r) in
+    (forall cc, In cc (d_val (reverse d)) -> ntp t2 (vc_path cc)) ->
+    exists t1', sub conv ro ao d t2 = Some (t1', 0) /\ veqb t1' t1 = true.
+Proof. exact clash_sub_inverts. Qed.
+Print Assumptions C08_sub_inverts_default.
+
+(* the data guards hold for the K17 pair of C04 (['a','b','a','b'] -> ['c','a','b','b','a'] with
+   the opcodes difflib returns), which IS a clash case: index 3 is removed and added *)
+Definition k17_cfg : cfg := mkCfg false 33 100 true.
+Definition k17_r := run_diff hatom_simple (fun _ _ => []) k17_ops DeltaReverseSym.nos DeltaReverseSym.nos k17_cfg k17_t1 k17_t2.
+Definition k17_d : delta := to_delta ex_conv true false k17_ops k17_t1 k17_t2 (fst k17_r) (snd k17_r).
+Theorem C08_sub_inverts_default_clash_instance :
+  no_clashb (fst (diff hatom_simple (fun _ _ => []) k17_ops DeltaReverseSym.nos DeltaReverseSym.nos k17_cfg k17_t1 k17_t2 [] [])) = false /\
+  guardsb k17_cfg true false k17_t2 k17_t1 = true /\ korder k17_t1 k17_t2 /\ keys_nonneg k17_t1 = true /\
+  ops_ok2 0 0 (k17_ops [] [] []) = true /\
+  (forall cc, In cc (d_val (reverse k17_d)) -> ntp k17_t2 (vc_path cc)) /\
+  sub ex_conv ex_ro ex_ao k17_d k17_t2 = Some (k17_t1, 0).
+Proof.
+  split; [vm_compute; reflexivity|]. split; [vm_compute; reflexivity|]. split; [cbn; repeat split|].
+  split; [reflexivity|]. split; [reflexivity|]. split; [|vm_compute; reflexivity].
+  apply ntp_valsb_sound. vm_compute. reflexivity.
+Qed.
+Print Assumptions C08_sub_inverts_default_clash_instance.
